@@ -51,6 +51,17 @@ CLAIMS["C06"] = dict(text="bounded symbolic model checking with the random gener
                     "register holding its own outcome for every order of measurement commands", design_ref="5/C06",
                     note=NOTE + "; outside the claim: acceptance statistics of the bosonic rejection sampler, the discretised Fock homodyne sampler, "
                     "hafnian/torontonian samplers of thewalrus, the exactness of finite-eps homodyne (both Gaussian-type backends approximate it differently)")
+CLAIMS["C15"] = dict(text="bounded symbolic model checking with strawberryfields.hbar set to a symbolic h > 0: position/momentum gates, homodyne "
+                    "post-selection and sampling, and Gaussian state preparation, given inputs rescaled by their documented units (x, p, select ~ sqrt(h), "
+                    "V ~ h), drive the hbar-free real Gaussian backend to exactly the same state from an ARBITRARY prior state; Gaussian, bosonic and Fock "
+                    "state objects scale means by sqrt(h/2) and covariances by h/2 and return h-independent mean photon numbers, variances, parity and "
+                    "vacuum fidelity", design_ref="5/C15")
+CLAIMS["C16"] = dict(text="bounded symbolic model checking of state objects built directly on ARBITRARY symbolic data (Gaussian (mu,V) n<=2(3), bosonic 2 "
+                    "peaks, Fock ket/dm D=2,3): reduced states equal the explicit partial trace / sub-blocks for every ascending subset; mean photon, "
+                    "variance, number_expectation, parity, quadrature moments, Fock probabilities and trace agree across methods of one object, between a "
+                    "ket and its own density matrix, and between the Gaussian and single-peak bosonic classes; parity answers for exactly the requested "
+                    "subset; backend.state(modes) returns the requested modes in the requested order with their own data and names",
+                    design_ref="5/C16", note=NOTE + "; outside: methods implemented through thewalrus hafnians / sqrtm (Gaussian fock_prob, fidelity, number_expectation), Wigner functions")
 NA_DEFAULT = "check not built yet in this session (plan: DESIGN.md section 5)"
 NA = {}
 
